@@ -120,3 +120,19 @@ def compact_size(n):
     if n <= 0xffff: return [253] + list(n.to_bytes(2, 'little'))
     if n <= 0xffffffff: return [254] + list(n.to_bytes(4, 'little'))
     return [255] + list(n.to_bytes(8, 'little'))
+
+
+# ------------------------------------------------------------------ grounding: tie the uninterpreted compression function to the real one at concrete points
+def ground_sha256(data, tag=None):
+    """constraints SHA256C(state, block) == real compression for every block of the (tagged) SHA-256 of the concrete byte string `data`.
+    Adding them to a satisfiable query forces the model's hash values on these inputs to be the real ones (they are true facts of SHA-256)."""
+    data = bytes(data)
+    if tag is not None:
+        th = hashlib.sha256(tag).digest(); state = _compress_concrete(IV256, th + th); before = 64
+    else: state = list(IV256); before = 0
+    msg = _md_pad(before, list(data), True); cons = []
+    for off in range(0, len(msg), 64):
+        blk = msg[off:off + 64]; ns = _compress_concrete(state, blk)
+        cons.append(SHA256C(_cat(state, 32), _cat(blk, 8)) == _cat(ns, 32))
+        state = ns
+    return cons
